@@ -31,6 +31,9 @@ func init() {
 			sc.SetInt("waits", g.Range(0, 2))
 			sc.SetInt("inside", g.Intn(2))
 			sc.SetInt("repeat", g.Intn(2))
+			if g.Bool(0.15) {
+				sc.SetInt("tdpanic", 1) // the source's teardown panics: Wait must still be released
+			}
 			return sc
 		},
 		Expand: expandCuts,
@@ -92,6 +95,10 @@ func runC06(e *Env) {
 	sc := e.Sc
 	o, srcs := e.Pipeline()
 	cut := sc.Int("cut", -1)
+	tdpanic := sc.Int("tdpanic", 0) == 1
+	if tdpanic {
+		srcs[0].PanicTeardown = true
+	}
 	rec := e.NewRec("o")
 	var h *SubHandle
 	firstUnsubRet := 0
@@ -103,7 +110,7 @@ func runC06(e *Env) {
 		unsubCalls++
 		func() {
 			defer func() {
-				if r := recover(); r != nil {
+				if r := recover(); r != nil && !tdpanic {
 					e.Violate("C06", "unsubscribe-panics", fmt.Sprintf("Unsubscribe panicked: %v", r))
 				}
 			}()
